@@ -93,6 +93,15 @@ theorem C01_perm_appenders (cfg : Config) (hv : Valid cfg) (tbl' : List Name)
   simp only [Prod.mk.injEq] at h
   simp only [specDeliver, specLevel_eq, effective, h.1, h.2]
 
+/-- An appender that returns an error does not starve the others: whatever set of appenders fails, every
+attachment along the chain is still called exactly once, in the same order, and exactly the failing ones
+are reported to the error handler. -/
+theorem C01_failing_appender_isolated (cfg : Config) (hv : Valid cfg) (fails : Name → Bool) (t : Name)
+    (lvl : Nat) :
+    deliverF cfg fails t lvl = some (specDeliver cfg t lvl, specFailures cfg fails t lvl) := by
+  rw [deliverF_eq, deliver_eq_spec cfg hv]
+  rfl
+
 /-- The Rust branch "child exists and `rest` is empty" (`child.add("")`) is never taken while building
 the tree of a valid configuration. -/
 theorem C01_weird_branch_dead (cfg : Config) (hv : Valid cfg) : buildWeird cfg = some false := by
